@@ -65,6 +65,9 @@ func (e procErr) Error() string { return fmt.Sprintf("operation error %d", e.n) 
 func (o procOp) Operation() (interface{}, error) {
 	if o.v <= panicBase {
 		k := panicBase - o.v
+		if k%3 == 2 {
+			panic(7000000 + k) // a payload that is neither a string nor an error
+		}
 		if k%2 == 1 {
 			// a runtime error (an index out of range that names the operation)
 			// rather than an explicit panic
@@ -174,6 +177,14 @@ func runProcessor(t *testing.T, c *Case, o RunOpts) *Result {
 						var pn int
 						if errors.As(err, &pe) && v == nil {
 							got = append(got, -pe.n)
+						} else if i := strings.Index(err.Error(), "panic: 70"); i >= 0 && v == nil {
+							// the recovered integer payload of a panicking operation
+							if _, e2 := fmt.Sscanf(err.Error()[i:], "panic: %d", &pn); e2 == nil && pn >= 7000000 {
+								got = append(got, panicBase-(pn-7000000))
+							} else {
+								sim.Fail("oracle", "processor-result", fmt.Sprintf("unexpected result (%v, %v)", v, err))
+								got = append(got, 0)
+							}
 						} else if i := strings.Index(err.Error(), "index out of range ["); i >= 0 && v == nil {
 							// the recovered runtime error of an odd-numbered panicking operation
 							if _, e2 := fmt.Sscanf(err.Error()[i:], "index out of range [%d]", &pn); e2 == nil {
@@ -379,6 +390,12 @@ type MapPlan struct {
 	// Map must then still return (with whatever error it likes) without
 	// panic, race or deadlock of the caller.
 	FailAt int `json:"fail_at,omitempty"`
+	// NilAt > 0: the chunk containing position NilAt-1 returns (nil, nil):
+	// still one result for that chunk.
+	NilAt int `json:"nil_at,omitempty"`
+	// ViaPromise: the same through PromiseMap: the promise is fulfilled with
+	// Map's results, or failed with Map's error.
+	ViaPromise bool `json:"via_promise,omitempty"`
 }
 
 type span struct{ lo, hi int }
@@ -387,17 +404,21 @@ type recMapper struct {
 	lo, hi int
 	slices *[]span
 	failAt int
+	nilAt  int
 }
 
 func (m *recMapper) Operation() (interface{}, error) {
 	if m.failAt > 0 && m.lo <= m.failAt-1 && m.failAt-1 < m.hi {
 		return nil, procErr{m.failAt}
 	}
+	if m.nilAt > 0 && m.lo <= m.nilAt-1 && m.nilAt-1 < m.hi {
+		return nil, nil
+	}
 	return span{m.lo, m.hi}, nil
 }
 func (m *recMapper) Slice(i, j int) concurrent.Mapper {
 	*m.slices = append(*m.slices, span{m.lo + i, m.lo + j})
-	return &recMapper{lo: m.lo + i, hi: m.lo + j, slices: m.slices, failAt: m.failAt}
+	return &recMapper{lo: m.lo + i, hi: m.lo + j, slices: m.slices, failAt: m.failAt, nilAt: m.nilAt}
 }
 func (m *recMapper) Len() int { return m.hi - m.lo }
 
@@ -412,7 +433,14 @@ func runMap(t *testing.T, c *Case, o RunOpts) *Result {
 		var err error
 		returned := false
 		sim.Client("mapper", func() {
-			results, err = concurrent.Map(&recMapper{lo: 0, hi: pl.Len, slices: &slices, failAt: pl.FailAt}, pl.Threads, pl.MaxChunk)
+			set := &recMapper{lo: 0, hi: pl.Len, slices: &slices, failAt: pl.FailAt, nilAt: pl.NilAt}
+			if pl.ViaPromise {
+				r := <-concurrent.PromiseMap(set, pl.Threads, pl.MaxChunk).Wait()
+				results, _ = r.Value.([]interface{})
+				err = r.Err
+			} else {
+				results, err = concurrent.Map(set, pl.Threads, pl.MaxChunk)
+			}
 			returned = true
 		})
 		return func() {
@@ -425,7 +453,10 @@ func runMap(t *testing.T, c *Case, o RunOpts) *Result {
 			}
 			if pl.FailAt > 0 && pl.FailAt <= pl.Len {
 				sim.Probe("map_with_failing_chunk")
-				return // only: Map returned, nothing panicked, raced or deadlocked
+				if pl.ViaPromise && err == nil {
+					sim.Fail("oracle", "promisemap-error", "a chunk failed, Map reports an error, and the promise made of it was settled without one")
+				}
+				return // otherwise only: Map returned, nothing panicked, raced or deadlocked
 			}
 			if err != nil {
 				sim.Fail("oracle", "map-error", fmt.Sprintf("Map failed although no operation fails: %v", err))
@@ -450,6 +481,14 @@ func runMap(t *testing.T, c *Case, o RunOpts) *Result {
 			var rs []span
 			for _, r := range results {
 				s, ok := r.(span)
+				if r == nil && pl.NilAt > 0 {
+					// the (nil, nil) chunk's result: stands for the chunk holding NilAt-1
+					for _, c := range sl {
+						if c.lo <= pl.NilAt-1 && pl.NilAt-1 < c.hi {
+							s, ok = c, true
+						}
+					}
+				}
 				if !ok {
 					sim.Fail("oracle", "map-results", fmt.Sprintf("unexpected result %#v", r))
 					return
@@ -486,7 +525,10 @@ func genMap(r *simrt.RNG) *Case {
 	}
 	if pl.Len > 0 && r.Intn(5) == 0 {
 		pl.FailAt = 1 + r.Intn(pl.Len)
+	} else if pl.Len > 0 && r.Intn(6) == 0 {
+		pl.NilAt = 1 + r.Intn(pl.Len)
 	}
+	pl.ViaPromise = r.Intn(5) == 0
 	b, _ := json.Marshal(pl)
 	return &Case{Prop: "C19", Kind: "map", Plan: b, Sched: PickStrategy(r, 120, []string{procWorkerSite, "map.go:"}, nil)}
 }
